@@ -499,7 +499,11 @@ class Path:
             self.heap[field] = z3.Const(f"H0_{field}", z3.ArraySort(z3.IntSort(), self.field_sort(field)))
         return self.heap[field]
 
+    read_track = None       # set of field names read (footprint of a recursive ghost function)
+
     def hread(self, field, ref):
+        if self.read_track is not None:
+            self.read_track.add(field)
         return z3.Select(self.heap_arr(field), ref)
 
     def hwrite(self, field, ref, value):
